@@ -21,6 +21,16 @@ import sys
 from common import REPO, VERIF, run
 
 CACHE = os.path.join(VERIF, ".cache", "replay")
+CACHE_SERDE = os.path.join(VERIF, ".cache", "replay_serde")   # same, with the crate's `serde` feature and serde_json (float_roundtrip)
+
+
+def uses_serde(prog):
+    for op in prog.get("ops", []):
+        if op[0] == "serde_roundtrip":
+            return True
+        if op[0] in ("merge", "add_assign") and uses_serde(op[1]):
+            return True
+    return False
 
 MOMENT_TYPES = {"Moments4": None, "M4": 4, "M5": 5, "M6": 6, "M8": 8, "M10": 10}
 HIST_TYPES = {"Histogram10": None, "H1": 1, "H2": 2, "H3": 3, "H4": 4, "H33": 33, "H100": 100}
@@ -97,6 +107,9 @@ class Gen:
                 self.lines.append("%s *= %du64;" % (v, op[1]))
             elif op[0] == "reset":
                 self.lines.append("%s.reset();" % v)
+            elif op[0] == "serde_roundtrip":
+                # checkpoint / restore through serde_json (float_roundtrip): the stream continues on the restored copy
+                self.lines.append("let mut %s: %s = { let js = serde_json::to_string(&%s).unwrap(); serde_json::from_str(&js).unwrap() };" % (v, tn, v))
             elif op[0] == "extend":
                 self.lines.append("%s.extend(%s.iter().cloned());" % (v, "vec!" + self._items(op[1])))
             elif op[0] == "extend_ref":
@@ -174,8 +187,9 @@ def render(prog):
     return render_many([prog])
 
 
-def ensure_crate():
-    os.makedirs(os.path.join(CACHE, "src"), exist_ok=True)
+def ensure_crate(serde=False):
+    cache = CACHE_SERDE if serde else CACHE
+    os.makedirs(os.path.join(cache, "src"), exist_ok=True)
     toml = """[package]
 name = "vreplay"
 version = "0.0.0"
@@ -187,21 +201,23 @@ libm = []
 std = []
 
 [dependencies]
-average = { path = "%s" }
+average = { path = "%s"%s }
 num-traits = { version = "0.2", default-features = false, features = ["libm"] }
-
+%s
 [workspace]
-""" % REPO
-    p = os.path.join(CACHE, "Cargo.toml")
+""" % (REPO, ', features = ["serde"]' if serde else "",
+       'serde = { version = "1", features = ["derive"] }\nserde-big-array = "0.5"\nserde_json = { version = "1", features = ["float_roundtrip"] }\n' if serde else "")
+    p = os.path.join(cache, "Cargo.toml")
     if not os.path.exists(p) or open(p).read() != toml:
         open(p, "w").write(toml)
-    lock = os.path.join(CACHE, "Cargo.lock")
+    lock = os.path.join(cache, "Cargo.lock")
     src = os.path.join(REPO, "Cargo.lock")
     if not os.path.exists(lock) and os.path.exists(src):
         # pin the versions the repository builds with (Cargo.lock is untracked in /repo, so it may be absent in a git worktree;
         # cargo then resolves offline from the registry cache)
         import shutil
         shutil.copy(src, lock)
+    return cache
 
 
 def _parse_block(text):
@@ -234,9 +250,9 @@ def _parse_block(text):
 
 def run_programs(progs, timeout=600):
     """Compile all programs into one binary against /repo's current tree and run it."""
-    ensure_crate()
-    open(os.path.join(CACHE, "src", "main.rs"), "w").write(render_many(progs))
-    rc, out, secs = run(["cargo", "run", "--offline", "--quiet", "--release"], timeout, cwd=CACHE,
+    cache = ensure_crate(serde=any(uses_serde(p) for p in progs))
+    open(os.path.join(cache, "src", "main.rs"), "w").write(render_many(progs))
+    rc, out, secs = run(["cargo", "run", "--offline", "--quiet", "--release"], timeout, cwd=cache,
                         env={"RUSTFLAGS": "-Awarnings"})
     if rc is None:
         return [{"obs": {}, "panic": None, "error": "timeout", "lists": {}, "raw": ""} for _ in progs]
